@@ -87,12 +87,13 @@ def loop_clauses(body):
         # a vector loop writes the elements of its target and the cursor, besides what the verifier finds by itself
         # (the shared `length` cell, objects allocated by the iteration)
         if info["kind"] == "vec":
-            out.append("//@   loop %d modifies elems(%s), readBuf.buf.i, readBuf.depth" % (k, info["target"]))
+            out.append("//@   loop %d modifies elems(%s), readBuf.buf.i, readBuf.depth, readBuf.rderr" % (k, info["target"]))
         elif info["kind"] == "arr":
-            out.append("//@   loop %d modifies %s, readBuf.buf.i, readBuf.depth" % (k, info["target"] or "*st"))
+            out.append("//@   loop %d modifies %s, readBuf.buf.i, readBuf.depth, readBuf.rderr" % (k, info["target"] or "*st"))
         elif info["kind"] == "map" and info["parents"]:
-            out.append("//@   loop %d modifies mapcells(%s), readBuf.buf.i, readBuf.depth" % (k, info["target"]))
+            out.append("//@   loop %d modifies mapcells(%s), readBuf.buf.i, readBuf.depth, readBuf.rderr" % (k, info["target"]))
         out.append("//@   loop %d invariant [C05] %s" % (k, " && ".join(inv)))
+        out.append("//@   loop %d invariant [C06] !readBuf.rderr" % k)
     return [o for o in out if o]
 
 # ------------------------------------------------------------------ schema (C03): the IDL files are the oracle
@@ -324,6 +325,15 @@ def reader_skeleton_clauses(idl, mem):
     o = []
     reads, skips = reader_skeleton(idl, mem)
     b = lambda x: "true" if x else "false"
+    # error propagation (C06): an error reported by any codec call makes ReadFrom fail. Ghost readBuf.rderr is cleared at
+    # the initial ResetDefault call and raised after every Read*/ReadBlock/SkipTo*/SkipToNoCheck call that returns an
+    # error; it must be false again at every loop head (the reader returns at once) and imply a non-nil result.
+    o.append("//@   site ResetDefault#0 ghost readBuf.rderr = false")
+    for k, r in enumerate(reads):
+        o.append("//@   site ).Read#%d ghostafter readBuf.rderr = readBuf.rderr || $ret != nil" % k)
+    for k, (wt, tag, req) in enumerate(skips):
+        o.append("//@   site ).Skip#%d ghostafter readBuf.rderr = readBuf.rderr || %s != nil" % (k, "$ret2" if wt is None else "$ret1"))
+    o.append("//@   ensures [C06] readBuf.rderr ==> err != nil")
     for k, r in enumerate(reads):
         if r is not None:
             o.append("//@   site ).Read#%d assert [C04] $2 == %d && $3 == %s" % (k, r[0], b(r[1])))
@@ -564,7 +574,7 @@ def gen(pkg):
                   "//@   requires st != nil && validR(readBuf)",
                   "//@   let p0 = readBuf.buf.i",
                   "//@   let allocbudget = 256 * len(readBuf.buf.src)",
-                  "//@   modifies *st, readBuf.buf.i, readBuf.depth",
+                  "//@   modifies *st, readBuf.rderr, readBuf.buf.i, readBuf.depth",
                   "//@   allocates",
                   "//@   ensures [C05] readBuf.buf.i >= p0",
                   "//@   ensures [C05] validR(readBuf)"] + lets + ens
@@ -582,10 +592,11 @@ def gen(pkg):
                   "//@   requires st != nil && validR(readBuf)",
                   "//@   let p0 = readBuf.buf.i",
                   "//@   let allocbudget = 256 * len(readBuf.buf.src)",
-                  "//@   modifies *st, readBuf.buf.i, readBuf.depth",
+                  "//@   modifies *st, readBuf.rderr, readBuf.buf.i, readBuf.depth",
                   "//@   allocates",
                   "//@   ensures [C05] readBuf.buf.i >= p0",
                   "//@   ensures [C05] validR(readBuf)",
+                  "//@   ensures [C06] (readBuf.rderr && !old(readBuf.rderr)) ==> result != nil",
                   "//@   safety [C05]", "//"]
     return "\n".join(o).rstrip("/\n") + "\n"
 
